@@ -119,6 +119,25 @@ CHECKS["C14"] = (
     "DESIGN.md 2/C14",
 )
 
+CHECKS["C15"] = (
+    "exhaustive enumeration of include trees (all rooted ordered trees <= 5 files x cut kinds), chains, cycles, missing files x path styles x line endings x entry points on real files, against my own textual substituter",
+    "All rooted ordered include trees with up to 5 files (1+1+2+5+14 shapes), every non-root file cut either as a whole block or as keyword lines, under 8 path styles (relative/absolute, sub-directories, single/double/no quotes, upper/lower/mixed INCLUDE, trailing # comment), LF and CRLF, entered through open, load(file object), loads from the root directory and Parser.parse with a file name, each from a different working directory: the dictionary must equal loads of the text flattened by my own substituter. Chains of depth 0..7 (<= 5 expand, deeper raise), self and mutual cycles (raise, not RecursionError), missing files (OSError), and expand_includes=False round trips (directives kept as data and written back). Public open/load/loads bound on a subset.",
+    "Trusted: my substituter and tree builder. INCLUDE directives on their own line outside strings/comments; scratch directory names without spaces.",
+    "DESIGN.md 2/C15",
+)
+CHECKS["C19"] = (
+    "exhaustive enumeration of the finite vocabulary product (block types, parent x child storage keys, slot x alternative x valid representative x position, defaults x versions) on the real grammar/transformer/printer/validator/create",
+    "Every block type read from the grammar object of the running implementation x {has schema, parses at root, prints and re-loads, validates}; every containment edge x {key used by the transformer, printer writes the block, auto-creating dict creates list vs dict, parent schema validates}; every slot x alternative x schema-valid representative in positions first/middle/last among neutral fillers (S2) through loads, the printer's own schema lookup and validate; every declared default checked against its own keyword's schema by my evaluator and create(type, version) -> dumps -> loads -> validate for every type x every version boundary.",
+    "Trusted: mcf/vocab.py representatives (written the way MapServer writes the alternative) and mcf/schemaeval.py.",
+    "DESIGN.md 2/C19",
+)
+CHECKS["C20"] = (
+    "exhaustive enumeration of Unicode scalar values through the file/stream/string front ends; CLI explored as real subprocesses over all 160 format option combinations, all file-kind subsets x versions and exit-status boundary error counts",
+    "Every Unicode scalar value from U+0020 to U+10FFFF (surrogates, the output quote and CR excepted) plus TAB and LF is placed in keyword and METADATA string values (256 per string) and must survive dumps->loads, save->open, save->load, with save bytes == UTF-8 of dumps and dump == dumps. /venv/bin/mappyfile is run as a subprocess: format for all 160 combinations of indent/spacer/quote/newlinechar/expand/comments (quick: each combination on one of six documents, thorough on all) must write exactly save(open(IN, ...), ...)'s bytes; validate for every subset of size <= 3 of {valid, invalid, unparseable, missing} x 3 versions and for error counts 0-3, 254-258 (thorough 0..300, 511, 512) must print one line per message plus a summary and exit 0 iff every matched file parsed and validated, with the problem count when <= 255; schema for 10 versions must equal the API's versioned schema.",
+    "Trusted: the OS file system and subprocess exit statuses.",
+    "DESIGN.md 2/C20",
+)
+
 NOT_YET = {}
 
 
